@@ -4,6 +4,7 @@ import (
 	"bytes"
 	"encoding/json"
 	"fmt"
+	"math/big"
 	"os"
 	"os/exec"
 	"path/filepath"
@@ -142,7 +143,175 @@ func nativeReplay(rf *ReplayFile, path string) (bool, string) {
 		return false, err.Error()
 	}
 	defer os.RemoveAll(tmp)
-	// overlay: harness files + generated registry test
+	ovPath := writeOverlay(tmp)
+
+	cmd := exec.Command("go", "test", "-tags", "verif", "-vet=off", "-count=1", "-v", "-run", "^TestVReplay$", "-overlay", ovPath, "-timeout", "300s", ".")
+	cmd.Dir = repoDir
+	cmd.Env = append(os.Environ(), "GOFLAGS=-mod=mod", "GOPROXY=off", "GOSUMDB=off", "GOTOOLCHAIN=local",
+		"VERIF_REPLAY="+path, "VERIF_HARNESS="+rf.Harness, "VERIF_TIER="+rf.Tier)
+	outb, _ := cmd.CombinedOutput()
+	out := string(outb)
+	ok := false
+	switch rf.Kind {
+	case "assert":
+		ok = strings.Contains(out, "VRESULT fail "+rf.ID+"\n")
+	case "panic":
+		if strings.Contains(out, "VRESULT panic") {
+			fn := nativeFuncName(panicSiteFunc(rf.ID))
+			ok = strings.Contains(out, fn+"(") || strings.Contains(out, fn+"\n") || strings.Contains(out, strings.TrimPrefix(fn, "github.com/coyim/")+"(")
+		}
+	case "alloc":
+		ok = strings.Contains(out, "VRESULT alloc")
+	case "steps":
+		ok = strings.Contains(out, "VRESULT timeout") || strings.Contains(out, "panic: test timed out") || strings.Contains(out, "fatal error: stack overflow")
+	case "globalstore":
+		ok = strings.Contains(out, "VRESULT globalstore")
+	}
+	return ok, out
+}
+
+// ---------- translator validation: concrete differential runs ----------
+
+type diffResult struct {
+	validated  int
+	mismatches []string
+	skipped    int
+}
+
+func differential(eng *Engine, prop, tier string, decls []*HarnessDecl, runs []*HarnessRun) diffResult {
+	var res diffResult
+	tmp, err := os.MkdirTemp("", "vdiff")
+	if err != nil {
+		return res
+	}
+	defer os.RemoveAll(tmp)
+	type sample struct {
+		file string
+		h    *HarnessRun
+		conc *HarnessRun
+	}
+	var samples []*sample
+	var concRuns []*HarnessRun
+	for _, h := range runs {
+		for i, m := range h.ModelSamples {
+			rf := ReplayFile{Property: prop, Harness: h.Name, Kind: "sample", Tier: tier, Assign: map[string]string{}, Widths: map[string]int{}}
+			cm := map[string]*big.Int{}
+			for _, vi := range h.SampleVars[i] {
+				if len(vi.Name) > 0 && vi.Name[0] == '$' || strings.HasPrefix(vi.Name, "now#") {
+					continue
+				}
+				v := m[vi.Name]
+				if v == nil {
+					v = new(big.Int)
+				}
+				rf.Assign[vi.Name] = v.Text(16)
+				rf.Widths[vi.Name] = vi.W
+				cm[vi.Name] = v
+			}
+			name := fmt.Sprintf("%s-%02d.json", h.Name, i)
+			b, _ := json.Marshal(rf)
+			os.WriteFile(filepath.Join(tmp, name), b, 0o644)
+			cr := newHarnessRun(h.Name, h.Fn, h.Cfg)
+			cr.Concrete = cm
+			cr.Cfg.DiffSamples = 0
+			samples = append(samples, &sample{name, h, cr})
+			concRuns = append(concRuns, cr)
+		}
+	}
+	if len(samples) == 0 {
+		return res
+	}
+	eng.RunHarnesses(concRuns)
+	out := nativeBatch(tmp, tier)
+	// parse native output
+	nat := map[string][]string{}
+	cur := ""
+	for _, line := range strings.Split(out, "\n") {
+		if strings.HasPrefix(line, "VBATCH ") {
+			cur = strings.TrimPrefix(line, "VBATCH ")
+			nat[cur] = []string{}
+			continue
+		}
+		if cur != "" && (strings.HasPrefix(line, "VEVENT ") || strings.HasPrefix(line, "VRESULT fail") || strings.HasPrefix(line, "VRESULT panic") || strings.HasPrefix(line, "VRESULT assume") || strings.HasPrefix(line, "VRESULT completed")) {
+			nat[cur] = append(nat[cur], line)
+		}
+	}
+	for _, s := range samples {
+		nl, ok := nat[s.file]
+		if !ok {
+			res.mismatches = append(res.mismatches, fmt.Sprintf("%s: native run produced no output (build failure?)", s.file))
+			continue
+		}
+		if s.conc.Paths != 1 {
+			res.skipped++
+			continue
+		}
+		var el []string
+		switch s.conc.ConcEnd {
+		case "end":
+			el = append(el, "VRESULT completed")
+		case "panic":
+			el = append(el, "VRESULT panic")
+		case "assume-false", "assume-infeasible":
+			el = append(el, "VRESULT assume")
+		}
+		var fails []string
+		for k, v := range s.conc.Violations {
+			if v.Kind == "assert" {
+				fails = append(fails, "VRESULT fail "+v.ID)
+			}
+			_ = k
+		}
+		sort.Strings(fails)
+		el = append(el, fails...)
+		for _, e := range s.conc.ConcEvents {
+			el = append(el, "VEVENT "+e)
+		}
+		// normalise native lines
+		var nn []string
+		var nf []string
+		var ne []string
+		for _, l := range nl {
+			switch {
+			case strings.HasPrefix(l, "VRESULT completed"):
+				nn = append(nn, "VRESULT completed")
+			case strings.HasPrefix(l, "VRESULT panic"):
+				nn = append(nn, "VRESULT panic")
+			case strings.HasPrefix(l, "VRESULT assume"):
+				nn = append(nn, "VRESULT assume")
+			case strings.HasPrefix(l, "VRESULT fail"):
+				nf = append(nf, l)
+			default:
+				ne = append(ne, l)
+			}
+		}
+		sort.Strings(nf)
+		nn = append(append(nn, nf...), ne...)
+		if strings.Join(el, "\n") != strings.Join(nn, "\n") {
+			res.mismatches = append(res.mismatches, fmt.Sprintf("%s:\n  interpreter: %s\n  native:      %s", s.file, trunc(strings.Join(el, " | "), 600), trunc(strings.Join(nn, " | "), 600)))
+			continue
+		}
+		res.validated++
+	}
+	return res
+}
+
+func nativeBatch(dir, tier string) string {
+	tmp, err := os.MkdirTemp("", "vreplay")
+	if err != nil {
+		return err.Error()
+	}
+	defer os.RemoveAll(tmp)
+	ovPath := writeOverlay(tmp)
+	cmd := exec.Command("go", "test", "-tags", "verif", "-vet=off", "-count=1", "-v", "-run", "^TestVReplay$", "-overlay", ovPath, "-timeout", "600s", ".")
+	cmd.Dir = repoDir
+	cmd.Env = append(os.Environ(), "GOFLAGS=-mod=mod", "GOPROXY=off", "GOSUMDB=off", "GOTOOLCHAIN=local",
+		"VERIF_REPLAY_BATCH="+dir, "VERIF_TIER="+tier)
+	outb, _ := cmd.CombinedOutput()
+	return string(outb)
+}
+
+func writeOverlay(tmp string) string {
 	ov := map[string]string{}
 	files, _ := filepath.Glob(filepath.Join(verifDir, "harness", "*.go"))
 	var harnessNames []string
@@ -169,30 +338,7 @@ func nativeReplay(rf *ReplayFile, path string) (bool, string) {
 	ovJSON, _ := json.Marshal(map[string]interface{}{"Replace": ov})
 	ovPath := filepath.Join(tmp, "overlay.json")
 	os.WriteFile(ovPath, ovJSON, 0o644)
-
-	cmd := exec.Command("go", "test", "-tags", "verif", "-vet=off", "-count=1", "-v", "-run", "^TestVReplay$", "-overlay", ovPath, "-timeout", "300s", ".")
-	cmd.Dir = repoDir
-	cmd.Env = append(os.Environ(), "GOFLAGS=-mod=mod", "GOPROXY=off", "GOSUMDB=off", "GOTOOLCHAIN=local",
-		"VERIF_REPLAY="+path, "VERIF_HARNESS="+rf.Harness, "VERIF_TIER="+rf.Tier)
-	outb, _ := cmd.CombinedOutput()
-	out := string(outb)
-	ok := false
-	switch rf.Kind {
-	case "assert":
-		ok = strings.Contains(out, "VRESULT fail "+rf.ID+"\n")
-	case "panic":
-		if strings.Contains(out, "VRESULT panic") {
-			fn := nativeFuncName(panicSiteFunc(rf.ID))
-			ok = strings.Contains(out, fn+"(") || strings.Contains(out, fn+"\n") || strings.Contains(out, strings.TrimPrefix(fn, "github.com/coyim/")+"(")
-		}
-	case "alloc":
-		ok = strings.Contains(out, "VRESULT alloc")
-	case "steps":
-		ok = strings.Contains(out, "VRESULT timeout") || strings.Contains(out, "panic: test timed out")
-	case "globalstore":
-		ok = strings.Contains(out, "VRESULT globalstore")
-	}
-	return ok, out
+	return ovPath
 }
 
 // ---------- per-property report ----------
@@ -232,6 +378,7 @@ func report(eng *Engine, prop, tier string, seed int, decls []*HarnessDecl, runs
 	var lines []string
 	inconclusive := false
 	knownMatched := []string{}
+	diffValidated, diffSkipped := 0, 0
 
 	for i, h := range runs {
 		d := decls[i]
@@ -341,6 +488,16 @@ func report(eng *Engine, prop, tier string, seed int, decls []*HarnessDecl, runs
 		}
 		hev = append(hev, he)
 	}
+	if !noReplay {
+		dr := differential(eng, prop, tier, decls, runs)
+		replays += dr.validated
+		diffValidated = dr.validated
+		diffSkipped = dr.skipped
+		for _, mm := range dr.mismatches {
+			lines = append(lines, fmt.Sprintf("INCONCLUSIVE property=%s translator validation mismatch (interpreter vs native on the same concrete inputs): %s", prop, mm))
+			inconclusive = true
+		}
+	}
 	for _, l := range lines {
 		fmt.Println(l)
 	}
@@ -416,6 +573,8 @@ func report(eng *Engine, prop, tier string, seed int, decls []*HarnessDecl, runs
 			"functions_encoded":             fes,
 			"stubs":                         stubList,
 			"known_findings_matched":        knownMatched,
+			"differential_runs_validated":   diffValidated,
+			"differential_runs_skipped":     diffSkipped,
 			"exhaustive":                    false,
 			"filtered_run":                  filtered,
 		},
